@@ -86,7 +86,12 @@ class Explorer:
                 r = self._check_as_int(extra)
         else:
             r = self.solver.check(*extra)
-        self.solver_time += time.time() - t
+        dt = time.time() - t
+        self.solver_time += dt
+        if TRACE_SLOW and dt > TRACE_SLOW:
+            import traceback
+            fr = [f for f in traceback.extract_stack() if "/sx/" not in f.filename][-3:]
+            print(f"[slow query {dt:.1f}s -> {r}] " + " <- ".join(f"{f.filename.split('/')[-1]}:{f.lineno}" for f in reversed(fr)), flush=True)
         return r
 
     def _check_as_int(self, extra):
@@ -210,6 +215,8 @@ class Explorer:
 
 
 CUR: Explorer = None  # type: ignore
+import os as _os
+TRACE_SLOW = float(_os.environ.get("SX_TRACE_SLOW", "0") or 0)
 INT_FALLBACK = True
 INT_FIRST = False      # harness opt-in: ask the integer restatement first (arithmetic-heavy obligations)
 FAST_MS = 6000
@@ -343,7 +350,10 @@ def ite(c, a, b):
     if la is not None and lb is not None:
         lo, hi = min(la.lo, lb.lo), max(la.hi, lb.hi)
         w = _bits_for(lo, hi)
-        return SymInt(z3.If(c.e, la.ext(w), lb.ext(w)), lo, hi)
+        da = la.dom if la.dom is not None else (frozenset([la.lo]) if la.concrete else None)
+        db = lb.dom if lb.dom is not None else (frozenset([lb.lo]) if lb.concrete else None)
+        dom = (da | db) if (da is not None and db is not None and len(da) + len(db) <= 300) else None
+        return SymInt(z3.If(c.e, la.ext(w), lb.ext(w)), lo, hi, dom)
     from .seq import SymBytes, as_symbytes
     sa, sb = as_symbytes(a), as_symbytes(b)
     if sa is not None and sb is not None and len(sa) == len(sb):
@@ -353,12 +363,14 @@ def ite(c, a, b):
 
 
 class SymInt:
-    __slots__ = ("_e", "lo", "hi")
+    __slots__ = ("_e", "lo", "hi", "dom", "prov")
 
-    def __init__(self, e, lo, hi):
+    def __init__(self, e, lo, hi, dom=None):
         self._e = e
         self.lo = lo
         self.hi = hi
+        self.prov = None    # (table, index term) when this value is table[index] for a concrete table: lets a later look-up keyed by it be fused
+        self.dom = dom      # optional finite set of possible values (table look-ups): lets comparisons with constants be decided without the solver
 
     @property
     def __class__(self):
@@ -448,6 +460,12 @@ class SymInt:
         r = pyop(self, o)
         if r is not None:
             return r
+        if self.dom is not None and o.concrete:
+            # finite-domain shortcut: the comparison has the same answer for every value the term can take
+            k = o.lo
+            rs = {bool(sop(v, k)) for v in self.dom}
+            if len(rs) == 1:
+                return rs.pop()
         w = max(self.w, o.w)
         return SymBool(sop(self.ext(w), o.ext(w)))
 
@@ -605,14 +623,14 @@ def _divmod_const(a, b):
     constant is far cheaper for the bit-blaster than a divider circuit."""
     key = ("divw", a._e.get_id(), b)
     hit = CUR.path_state.get(key)
-    if hit is not None:
-        return hit
+    if hit is not None and hit[2].eq(a._e):      # the term is kept alive in the cache entry, so its id cannot be recycled
+        return hit[0], hit[1]
     qlo, qhi = a.lo // b, a.hi // b
     q = CUR.fresh_var("divq", qlo, qhi)
     r = CUR.fresh_var("divr", 0, b - 1)
     w = max(a.w, _bits_for(qlo * b, qhi * b + b)) + 1
     CUR.assume_z3(a.ext(w) == lift(q).ext(w) * z3.BitVecVal(b, w) + lift(r).ext(w))
-    CUR.path_state[key] = (q, r)
+    CUR.path_state[key] = (q, r, a._e)
     return q, r
 
 
